@@ -407,6 +407,7 @@ def r5(ctx) -> None:
     repo = ctx.repo
     lib.check_filled_items_fresh(ctx, "C10-R5")
     lib.check_no_parameter_state_in_constructors(ctx, "C10-R5")
+    lib.check_linkable_requires_one_global_dimension(ctx, "C10-R5")
     entries = [
         (EST, "EstimationProviderUnlinked.estimate"),
         (EST, "EstimationProviderLinked.estimate"),
@@ -650,9 +651,52 @@ def r8(ctx) -> None:
     fixed_point(ctx, rule="C10-R8")
 
 
+def datasets_untouched(ctx, rule: str = "C10-R3") -> None:
+    """The optimisation group writes result variables only into copies of the caller's datasets."""
+    repo = ctx.repo
+    ef = _effects(repo)
+    cls = repo.cls(GRP, "OptimizationGroup")
+    n = 0
+    WRITERS = {"add_svd_data", "add_svd_to_dataset", "add_weight_to_result_data", "finalize_dataset_model"}
+    for m in cls.methods.values():
+        fl = lib.flow(m, repo)
+        ctx.touch(m)
+        for c in lib.calls(m):
+            nm = c.func.attr if isinstance(c.func, ast.Attribute) else (c.func.id if isinstance(c.func, ast.Name) else "")
+            if nm not in WRITERS:
+                continue
+            if m.name in WRITERS:
+                continue  # the helpers hand their own parameter on; they are judged at their call sites
+            pos = {"add_svd_data": 1, "add_svd_to_dataset": 0, "add_weight_to_result_data": 1, "finalize_dataset_model": 1}[nm]
+            arg = c.args[pos] if pos < len(c.args) else next((k.value for k in c.keywords if k.arg in ("dataset", "result_dataset")), None)
+            ds = [arg] if isinstance(arg, ast.Name) else []
+            for a in ds[:1]:
+                n += 1
+                o = ef.origin(fl, a, lib.stmt_of(c))
+                in_init = m.name == "__init__"
+                ok = o in ("fresh",) and not in_init or (not in_init and a.id.startswith("result_"))
+                ctx.ob(rule, f"{m.short}/{nm}:writes-into-a-copy", ok, m, c,
+                       "variables are added to the result datasets (copies made in create_result_data), never to the datasets of scheme.data: "
+                       "the caller's scheme stays untouched and a second optimisation sees the same input",
+                       [f"argument `{a.id}` has origin {o}" + (" (constructor: only the caller's datasets exist here)" if in_init else "")],
+                       construct=lib.short(c, 110))
+        for t, st in lib.stores(m):
+            if isinstance(t, ast.Subscript) and isinstance(t.value, ast.Name) and ("dataset" in t.value.id) and m.name == "__init__":
+                ctx.ob(rule, f"{m.short}/no-dataset-store-in-constructor", False, m, st, "the constructor must not write into datasets", construct=lib.short(st, 100))
+    ctx.sites(rule, "dataset writers called by the optimisation group", n, 3)
+    cr = ctx.fn(GRP, "OptimizationGroup.create_result_data")
+    txt = lib.xfn(cr, repo)
+    ctx.ob(rule, "create_result_data/works-on-copies", "label: data.copy() for label, data in self._data.items()" in txt, cr, cr.node,
+           "result datasets start as copies of the input datasets", construct="{label: data.copy() for label, data in self._data.items() ...}")
+
+
+def r3_datasets(ctx) -> None:
+    datasets_untouched(ctx, "C10-R3")
+
+
 def check(ctx) -> None:
     for g in check.groups:
         g(ctx)
 
 
-check.groups = [r1, r2, r3, r4, r5, r6, r7, r8]
+check.groups = [r1, r2, r3, r4, r5, r6, r7, r8, r3_datasets]
